@@ -16,7 +16,7 @@ REAL = ["spydrnet.composers.edif (composer, edifify_names)", "spydrnet.parsers.e
 STUB = ["file system (SimFS)", "read chunking (short reads)", "wall clock", "identity hash of IR objects "
         "(topological sort of libraries/cells iterates dependency sets)", "process restart between write and read"]
 
-NAME_POOL = ["a", "A", "ab", "a_b", "n1", "x y", "a[0]", "a[1]", "1a", "a-b", "a/b", "\\esc ", "$x", "a.b", "q(0)"]
+NAME_POOL = ["a", "A", "ab", "a_b", "n1", "x y", "a[0]", "a[1]", "1a", "a-b", "a/b", "\\esc ", "$x", "a.b", "q(0)", "a%b", "50%", "%1%"]
 
 
 class C03(Prop):
@@ -37,7 +37,7 @@ class C03(Prop):
     assumptions = ["port base indices are not part of the comparison (the statement lists order, direction, width "
                    "and array-ness for ports)",
                    "libraries and cells are compared as name-keyed sets, everything inside a cell in order",
-                   "names contain no double quote or newline; every element is named; library dependencies acyclic",
+                   "names contain no double quote or newline (percent signs occur); every element is named; library dependencies acyclic",
                    "EDIF.identifier entries supplied by the user are legal and unique ignoring case in their scope "
                    "(the writer takes them as they are)"]
     runs = {"quick": 5000, "thorough": 120000}
